@@ -27,7 +27,8 @@ def run(rep, tier):
         c12.check_first_in_path(rep_, prog)
         search.check_relaxation(rep_, prog)
         search.check_pruning(rep_, prog)
-        from . import c07, c14
+        from . import c07, c14, c17
+        c17.check_program(rep_, prog, rules=('R17a', 'R17c'))
         c07.r07k(rep_, prog)
         search.check_combine_types(rep_, prog)
         # root weight of the shortest-path trees (candidate sort keys): shared with C14
@@ -36,6 +37,8 @@ def run(rep, tier):
         for i in sub14.instances.values():
             if i.rule == 'R14d':
                 rep_.add(i.rule, i.site, i.function, i.what, i.status, i.detail, key=i.key)
+    rep.rule('R17a', 'support-vector sum / dot product are merges of strictly increasing lists (an incomplete sum leaves a support non-orthogonal: the phase then picks a heavier or dependent cycle)', floor=0)
+    rep.rule('R17c', 'compound support-vector operators are alias-safe', floor=0)
     rep.rule('R02j', 'the saturating sum of the searches is applied in the distance type (no floating -> integral truncation of weights)', floor=4)
     rep.rule('R07k', 'numeric_limits<T>::infinity() only for floating-point T (0 for integral weight types)', floor=0)
     rep.rule('R14d', 'the root node of a shortest-path tree has weight zero (candidate weights are the sort keys of the first-found lookup)', floor=0)
